@@ -2,11 +2,20 @@
 const fs = require('fs'), path = require('path');
 const dir = process.argv[2];
 const cases = JSON.parse(fs.readFileSync(path.join(dir, 'cases.json')));
-const bytes = fs.readFileSync(path.join(dir, 'module.wasm'));
-if (!WebAssembly.validate(bytes)) { console.log(JSON.stringify({invalid: true})); process.exit(0); }
-const inst = new WebAssembly.Instance(new WebAssembly.Module(bytes), {});
+const insts = {}, failed = {};
+function instOf(mod) {
+  if (mod in insts || mod in failed) return insts[mod];
+  try {
+    const bytes = fs.readFileSync(path.join(dir, mod + '.wasm'));
+    if (!WebAssembly.validate(bytes)) { failed[mod] = 'invalid'; console.log(JSON.stringify({engine: 'v8', mod, invalid: true})); return undefined; }
+    insts[mod] = new WebAssembly.Instance(new WebAssembly.Module(bytes), {});
+  } catch (e) { failed[mod] = String(e); console.log(JSON.stringify({engine: 'v8', mod, invalid: true, error: String(e.message || e)})); }
+  return insts[mod];
+}
 let bad = 0;
 cases.forEach((c, i) => {
+  const inst = instOf(c.mod);
+  if (!inst) { bad++; return; }
   const f = inst.exports[c.fn];
   const args = c.args.map((a, k) => c.argty[k] === 'i64' ? BigInt.asIntN(64, BigInt(a)) : (Number(a) | 0));
   let got = '', trap = '';
